@@ -131,7 +131,7 @@ def variants(fmt):
     if fmt == 'zmap':
         return [{}, {'year': 'float'}, {'year': 'decimal'}, {'ints': False}]
     if fmt == 'ndk':
-        return [{}, {'centroid': CENTROIDS[1]}]
+        return [{}, {'centroid': CENTROIDS[1]}, {'errors': 'wide'}]
     return [{}]
 
 
